@@ -115,7 +115,7 @@ def load_schema(schema_path: str | Path) -> SchemaDefinition:
     if not path.exists():
         raise FileNotFoundError(f"Schema file not found: {schema_path}")
 
-    with open(path) as f:
+    with open(path, encoding="utf-8") as f:
         content = f.read()
 
     # Parse schema document
